@@ -53,6 +53,24 @@ static void c_scan(long c) { int form = c % 2; c /= 2; int part = c % 2; c /= 2;
     vtbb::finish(); check_seq(total, n, "parallel_scan (returned total)");
     for (int i = 0; i < n; i++) { if (finals[i] != 1) vf_fail("parallel_scan: final pass ran %d times for element %d", finals[i], i); check_seq(prefixes[i], i, "parallel_scan (incoming prefix)"); }
     vf_outcome("scan form=%d part=%d P=%d n=%d g=%d steals=%ld", form, part, P, n, g, vtbb::stats().steals); }
-static long N1, N2, N3;
-static void scenario(long c) { if (c < N1) c_reduce(c); else if (c < N1 + N2) c_det(c - N1); else c_scan(c - N1 - N2); }
-int main(int argc, char** argv) { canon = new std::map<long, std::string>(); N1 = 2L * 4 * 3 * GMAX * (NMAX + 1); N2 = 2L * 6 * GMAX * (NMAX + 4); N3 = 2L * 2 * 3 * GMAX * (NMAX + 1); return vf_main_cases(argc, argv, N1 + N2 + N3, scenario); }
+// ---- every overload of parallel_reduce (functional / Body form x {no partitioner, simple, auto, static, affinity} x with / without context) and of parallel_scan
+static void c_ovl(long c) { int P = 1 + c % 3; c /= 3; int n = (int)(c % 6); c /= 6; int ov = (int)c;   // ov 0..19 reduce, 20..25 scan
+    vtbb::init(P); tbb::blocked_range<int> range(0, n, 1); tbb::task_group_context ctx; tbb::affinity_partitioner ap; tbb::simple_partitioner sp; tbb::auto_partitioner aup; tbb::static_partitioner stp;
+    auto fb = [](const tbb::blocked_range<int>& rg, List v) { for (int i = rg.begin(); i < rg.end(); i++) v.push_back(i); vtbb::nested(); vtbb::interleave(); return v; }; auto jn = [](const List& a, const List& b) { return cat(a, b); };
+    if (ov < 20) { bool bodyform = ov >= 10; int k = ov % 10; bool wc = k >= 5; int pk = k % 5; List r;
+        if (!bodyform) { if (!wc) { r = pk == 0 ? tbb::parallel_reduce(range, List(), fb, jn) : pk == 1 ? tbb::parallel_reduce(range, List(), fb, jn, sp) : pk == 2 ? tbb::parallel_reduce(range, List(), fb, jn, aup) : pk == 3 ? tbb::parallel_reduce(range, List(), fb, jn, stp) : tbb::parallel_reduce(range, List(), fb, jn, ap); }
+            else { r = pk == 0 ? tbb::parallel_reduce(range, List(), fb, jn, ctx) : pk == 1 ? tbb::parallel_reduce(range, List(), fb, jn, sp, ctx) : pk == 2 ? tbb::parallel_reduce(range, List(), fb, jn, aup, ctx) : pk == 3 ? tbb::parallel_reduce(range, List(), fb, jn, stp, ctx) : tbb::parallel_reduce(range, List(), fb, jn, ap, ctx); } }
+        else { ImpBody::live = ImpBody::made = 0; { ImpBody b;
+            if (!wc) { if (pk == 0) tbb::parallel_reduce(range, b); else if (pk == 1) tbb::parallel_reduce(range, b, sp); else if (pk == 2) tbb::parallel_reduce(range, b, aup); else if (pk == 3) tbb::parallel_reduce(range, b, stp); else tbb::parallel_reduce(range, b, ap); }
+            else { if (pk == 0) tbb::parallel_reduce(range, b, ctx); else if (pk == 1) tbb::parallel_reduce(range, b, sp, ctx); else if (pk == 2) tbb::parallel_reduce(range, b, aup, ctx); else if (pk == 3) tbb::parallel_reduce(range, b, stp, ctx); else tbb::parallel_reduce(range, b, ap, ctx); } r = b.v; }
+            if (ImpBody::live != 0) vf_fail("parallel_reduce overload %d: %d split bodies not destroyed", ov, ImpBody::live); }
+        vtbb::finish(); check_seq(r, n, "parallel_reduce (overload sweep)"); vf_outcome("ovl-reduce %d P=%d n=%d", ov, P, n); return; }
+    int so = ov - 20; std::vector<int> finals(n, 0); std::vector<List> prefixes(n); List total;
+    if (so < 3) { ScanBody b(&finals, &prefixes); if (so == 0) tbb::parallel_scan(range, b); else if (so == 1) tbb::parallel_scan(range, b, sp); else tbb::parallel_scan(range, b, aup); total = b.sum; }
+    else { auto scan = [&](const tbb::blocked_range<int>& r, List s2, bool fin) { for (int i = r.begin(); i < r.end(); i++) { if (fin) { finals[i]++; prefixes[i] = s2; } s2.push_back(i); } vtbb::nested(); vtbb::interleave(); return s2; };
+        total = so == 3 ? tbb::parallel_scan(range, List(), scan, jn) : so == 4 ? tbb::parallel_scan(range, List(), scan, jn, sp) : tbb::parallel_scan(range, List(), scan, jn, aup); }
+    vtbb::finish(); check_seq(total, n, "parallel_scan (overload sweep, returned total)"); for (int i = 0; i < n; i++) { if (finals[i] != 1) vf_fail("parallel_scan overload %d: final pass ran %d times for element %d", so, finals[i], i); check_seq(prefixes[i], i, "parallel_scan (overload sweep, prefix)"); }
+    vf_outcome("ovl-scan %d P=%d n=%d", so, P, n); }
+static long N1, N2, N3, N4;
+static void scenario(long c) { if (c < N1) c_reduce(c); else if (c < N1 + N2) c_det(c - N1); else if (c < N1 + N2 + N3) c_scan(c - N1 - N2); else c_ovl(c - N1 - N2 - N3); }
+int main(int argc, char** argv) { canon = new std::map<long, std::string>(); N1 = 2L * 4 * 3 * GMAX * (NMAX + 1); N2 = 2L * 6 * GMAX * (NMAX + 4); N3 = 2L * 2 * 3 * GMAX * (NMAX + 1); N4 = 3L * 6 * 26; return vf_main_cases(argc, argv, N1 + N2 + N3 + N4, scenario); }
